@@ -108,6 +108,8 @@ def plan(tier, seed):
         for klass in mod.CLASSES:
             for rep in range(1 if tier == "quick" else 6):
                 cases.append({"kind": "guaranteed_gen", "writer": name, "klass": klass, "rep": rep, "seed": seed})
+    # the repository's own test-suite as a workload under monitor M9 (vf/mon/pytest_plugin.py)
+    cases.append({"kind": "suite", "tier": tier, "timeout": 3300})
     return cases
 
 
@@ -485,6 +487,10 @@ def case_required(case):
 
 
 def run_case(case):
+    if case.get("kind") == "suite":
+        from .. import suite
+
+        return suite.case(['guaranteed-set'], case["tier"])
     fn = {"select": case_select, "declared": case_declared, "guaranteed": case_guaranteed, "guaranteed_gen": case_guaranteed_gen, "required": case_required}[case["kind"]]
     viols, feats, counters, sample = fn(case)
     return {"status": "violation" if viols else "ok", "violations": viols, "features": feats, "counters": counters, "sample": sample}
